@@ -55,11 +55,13 @@ def gen_signal(rng, name, nbytes, used, opts):
         offset = rng.choice(opts.get("offsets", OFFSETS))
         s = {"name": name, "start": start, "size": size, "little": little, "signed": signed, "float": is_float,
              "factor": factor, "offset": offset, "unit": rng.choice(opts.get("units", UNITS)),
-             "receivers": sorted(rng.sample(ECUS, rng.choice([0, 1, 2]))), "comment": rng.choice([None, None, "sig comment", "second line"]) if opts.get("comments", True) else None,
+             "receivers": sorted(rng.sample(ECUS, rng.choice([0, 1, 2]))), "comment": rng.choice([None, None, "sig comment", "second line"] + (["line one\nline two"] if opts.get("multiline_comments") else [])) if opts.get("comments", True) else None,
              "mux": None, "values": {}, "min": None, "max": None}
         if opts.get("values", True) and not is_float and rng.random() < 0.3:
             lo, hi = F.raw_range([name, start, size, little, signed, False])
             keys = sorted({k for k in (0, 1, 2, hi, rng.randint(max(lo, 0), min(hi, 255))) if lo <= k <= hi})[:rng.randint(1, 4)]
+            if opts.get("negative_value_keys") and signed and rng.random() < 0.5:
+                keys = sorted(set(keys) | {-1, lo})          # a signed signal may name negative raw values
             s["values"] = {str(k): rng.choice(["On", "Off", "Error", "Init", "SNA"]) + str(i) for i, k in enumerate(keys)}
         if opts.get("limits", False) and rng.random() < 0.4:
             s["min"], s["max"] = rng.choice([("0", "100"), ("-40", "215"), ("0", "1"), ("0.5", "12.5")])
@@ -149,7 +151,8 @@ def build(desc, update=True):
     for e in desc["ecus"]:
         db.add_ecu(cm.Ecu(e))
     for f in desc["frames"]:
-        fr = cm.Frame(f["name"], arbitration_id=cm.ArbitrationId(f["id"], f["ext"]), size=f["size"], transmitters=list(f["transmitters"]),
+        # (the readers set the extended flag as the integer 1, the API documents a bool: both occur)
+        fr = cm.Frame(f["name"], arbitration_id=cm.ArbitrationId(f["id"], (1 if f["ext"] else False) if desc.get("ext_int") else f["ext"]), size=f["size"], transmitters=list(f["transmitters"]),
                       comment=f.get("comment") or "", is_fd=f.get("fd", False), is_j1939=f.get("j1939", False), cycle_time=f.get("cycle", 0))
         for s in f["signals"]:
             kw = {}
